@@ -74,7 +74,8 @@ def cases(tier, seed):
     # --- KPM
     kpm = [dict(n=6, blocks=[1], opts={}), dict(n=6, blocks=[2], opts={"atol": 1e-4}),
            dict(n=6, blocks=[1, 1], opts={}), dict(n=6, blocks=[1, 1], opts={"atol": 1e-4}),
-           dict(n=6, blocks=[1], opts={"max_moments": 50})]
+           dict(n=6, blocks=[1], opts={"max_moments": 50}), dict(n=6, blocks=[1], opts={"auxiliary_vectors": 2}),
+           dict(n=6, blocks=[1, 1], opts={"auxiliary_vectors": 1, "atol": 1e-4})]
     if tier != "quick":
         kpm += [dict(n=8, blocks=[2, 1], opts={"atol": 1e-5}), dict(n=8, blocks=[1], opts={"atol": 1e-6, "eps": 0.05}),
                 dict(n=8, blocks=[2], opts={"auxiliary_vectors": 2})]
